@@ -159,10 +159,9 @@ package commonmark
 // parseDelimiterRun (C11, C13): the element pushed for a delimiter run records
 // the run as the specification's procedure needs it - the text node is the
 // maximal run of the delimiter character (inside the current text run), n is
-// its length, typ its character, and the element is active.  (That the
-// can-open / can-close bits are those of emphasisFlags for exactly that run is
-// NOT claimed: a postcondition saying so verified, but so did a deliberately
-// wrong variant of it, so the clause was withdrawn - see /verif/DESIGN.md 11.7.)
+// its length, typ its character, the element is active, and its can-open /
+// can-close bits are those of the flanking definitions for exactly that run
+// (previous character before start, next character at end).
 // ---------------------------------------------------------------------------
 
 //@ func (*InlineParser).parseDelimiterRun
@@ -175,6 +174,10 @@ package commonmark
 //@   ensures[pushed] len(state.stack) == len(old(state.stack)) + 1 && state.stack[len(state.stack) - 1].n == end - start
 //@       && state.stack[len(state.stack) - 1].typ == (state.source[start] == '*' ? 1 : 2)
 //@       && state.stack[len(state.stack) - 1].flags % 2 == 1
+//@   ensures[flags] (HasBit(state.stack[len(state.stack) - 1].flags, 2) <==> CanOpen(state.source[start] == '*', UWhitespace(PrevRune(state.source, start)), UPunct(PrevRune(state.source, start)),
+//@       UWhitespace(NextRune(state.source, end)), UPunct(NextRune(state.source, end))))
+//@       && (HasBit(state.stack[len(state.stack) - 1].flags, 4) <==> CanClose(state.source[start] == '*', UWhitespace(PrevRune(state.source, start)), UPunct(PrevRune(state.source, start)),
+//@       UWhitespace(NextRune(state.source, end)), UPunct(NextRune(state.source, end))))
 //@   ensures[kept] forall k in [0, len(old(state.stack))): state.stack[k].typ == old(state.stack[k].typ) && state.stack[k].flags == old(state.stack[k].flags) && state.stack[k].n == old(state.stack[k].n) && state.stack[k].node == old(state.stack[k].node)
 //@   loop 0: invariant[run] !isnil(state) && !isnil(node) && node.span.Start == start && start < node.span.End && node.span.End <= len(state.source)
 //@       && (forall k in [start, node.span.End): state.source[k] == state.source[start])
